@@ -18,6 +18,9 @@ structure St where
   mem : Mem := ⟨0, [], 0, []⟩
   /-- largest number of regions the implementation has visited so far in this case -/
   maxVisit : Nat := 0
+  /-- the last client step (`#X <name>`: real kernel code that received pointers into the block
+  ran between two enumerations); "" = none yet in this case -/
+  client : String := ""
 
 def hexs (bs : List UInt8) : String := bytesHex bs
 
@@ -139,7 +142,9 @@ def oracle (st : St) (op : List String) (obs : String) : List (String × String)
       let got := (toks obs).drop 2
       let gotR := (parseEnts got).map fun e => (⟨e.addr, e.len, e.ty⟩ : Region)
       let ents := match firstOf 6 tags with | some (.mmap _ _ es) => es | _ => []
-      [((if (firstOf 6 tags).isNone then "absent-is-empty" else "memmap-exact"), regionFeature want gotR ents)]
+      let feat := regionFeature want gotR ents
+      let feat := if feat = "-" ∧ st.client ≠ "" then s!"after-{st.client}" else feat
+      [((if (firstOf 6 tags).isNone then "absent-is-empty" else "memmap-exact"), feat)]
   | ["F"] =>
     let got := toks obs
     match expFb tags with
@@ -158,7 +163,8 @@ def oracle (st : St) (op : List String) (obs : String) : List (String × String)
     if obs = trimS s!"done {ss.length} {sectionsStr ss}" then []
     else [((if (firstOf 9 tags).isNone then "absent-is-empty" else "elf-exact"), "-")]
   | ["D"] =>
-    if obs = hexs (encode (normFirst st.maxVisit tags)) then [] else [("writes-confined", "-")]
+    if obs = hexs (encode (normFirst st.maxVisit tags)) then []
+    else [("writes-confined", if st.client ≠ "" then s!"after-{st.client}" else "-")]
   | _ => [("bad-line", "-")]
 
 /-! ### statistics -/
@@ -194,7 +200,11 @@ def processLine (st : St) (line : String) : IO St := do
   if line.startsWith "#" then
     match toks line with
     | ["#S", base, sbase, stab] =>
-      return { st with base := nat! base, sbase := nat! sbase, stab := hexBytes stab, tags := #[], maxVisit := 0 }
+      return { st with base := nat! base, sbase := nat! sbase, stab := hexBytes stab, tags := #[], maxVisit := 0,
+                       client := "" }
+    | ["#X", name] =>
+      -- a client of the multiboot API ran on the real code; the block must still say the same
+      return { st with client := name, stats := st.stats.bump s!"client_{name}" }
     | "#I" :: rest =>
       match parseTag rest with
       | some t => return { st with tags := st.tags.push t }
